@@ -954,7 +954,9 @@ def evaluate(inp: Inputs, cfg: dict, check_off: bool = False, reload: bool = Tru
     except Exception as exc:  # noqa: BLE001
         return Outcome('error', [Failure('malformed_inventory', type(exc).__name__, 'emission.compute_emissions', '',
                                          f'returned value cannot be read: {exc!r}', exc)], exc)
-    return Outcome('value', check_view(v, inp.tf, inp.ff, inp.pf, cfg, check_off), None, v)
+    out = Outcome('value', check_view(v, inp.tf, inp.ff, inp.pf, cfg, check_off), None, v)
+    out.obj = e  # the inventory object itself: a result is a value, later calls must not change it
+    return out
 
 
 def minimal_assignment(inp: Inputs, cfg: dict, f: Failure, check_off: bool, memo: dict | None = None):
